@@ -157,6 +157,20 @@ def enumerate_cases(tier):
                 ops.append(["raw", max(0.0, c - x * cell), min(1.0, c + y * cell)])
                 ops.append(["raw", c, min(1.0, c + tol * rnd.choice([0.3, 0.9, 1.0, 1.5, 2.5]))])
             yield {"kind": "history", "cfg": cfg, "ops": ops}
+    # a whole warm-up (the first 100+ queries) of empty or sub-tolerance queries, then ordinary ones: what the object learns
+    # from the first queries must not make the next call diverge
+    for wrapper, tol, width in (("interval", 0.0, 0.0), ("path", 0.0, 0.0), ("interval", 1e-10, 3e-11), ("interval", 0.0, 1e-13),
+                                ("interval", 1e-6, 0.0)):
+        for n_first in (99, 100, 101, 130):
+            idx += 1
+            rnd = random.Random(seed * 5003 + idx)
+            c = round(rnd.uniform(0.1, 0.9), 6)
+            ops = [["raw", c, c + width] for _ in range(n_first)] + [["raw", c, min(1.0, c + 0.05)], ["raw", 0.0, 1.0],
+                                                                     ["raw", 0.2, 0.7]]
+            cfg = {"wrapper": wrapper, "t0": 0.0, "t1": 1.0, "shape": [2], "levy": "none", "entropy": rnd.randrange(2 ** 31),
+                   "dtype": "float64", "cache_size": None if wrapper == "path" else rnd.choice([45, 5]), "dt": None, "tol": tol,
+                   "halfway": False, "user_W": False, "user_H": False, "grid": 100}
+            yield {"kind": "history", "cfg": cfg, "ops": ops}
 
 
 class _Guard:
@@ -181,6 +195,25 @@ def _cache_len(interval):
         return 0
 
 
+def _tensors_held(obj):
+    """Number of distinct tensors kept alive by a Brownian object: everything reachable from it through containers and
+    through instances of the library's own classes (tree nodes, caches, whatever slot or dict they are parked in)."""
+    import gc
+    seen, tensors, stack = set(), set(), [obj]
+    while stack:
+        o = stack.pop()
+        if id(o) in seen:
+            continue
+        seen.add(id(o))
+        if isinstance(o, torch.Tensor):
+            tensors.add(id(o))
+            continue
+        mod = getattr(type(o), "__module__", "") or ""
+        if isinstance(o, (dict, list, tuple, set, frozenset)) or mod.startswith("torchsde") or mod == "collections":
+            stack.extend(gc.get_referents(o))
+    return len(tensors)
+
+
 def _classify(e, where_sig):
     if isinstance(e, WorkBudgetExceeded):
         return Fail("nontermination:node_budget", str(e), dict(where_sig, exc="WorkBudgetExceeded"))
@@ -188,6 +221,7 @@ def _classify(e, where_sig):
 
 
 _MAX_SEARCH = [0]
+_MAX_HELD = [0]
 
 
 def _run_queries(cfg, queries, sig, twin=False):
@@ -231,6 +265,16 @@ def _run_queries(cfg, queries, sig, twin=False):
             if cs is not None and n > cs:
                 return Fail("cache_bound", f"cache holds {n} entries > cache_size={cs} after query #{idx}", sig), \
                     checks, max_nodes, max_cache
+        if cs is not None and queries:
+            # "cached entries" wherever they are kept: a cache entry is a (W, H) pair, the top level keeps its own pair (and the
+            # supplied / generated Levy noise): the object may keep 2 * cache_size + 8 tensors alive, however many queries
+            held = _tensors_held(interval)
+            _MAX_HELD[0] = max(_MAX_HELD[0], held - 2 * cs)
+            checks += 1
+            if held > 2 * cs + 8:
+                return Fail("cache_bound:tensors_held", f"after {len(queries)} queries the Brownian object keeps {held} tensors "
+                                                        f"alive with cache_size={cs} (a cache entry is a (W, H) pair: at most "
+                                                        f"{2 * cs + 8} expected)", sig), checks, max_nodes, max_cache
     return None, checks, max_nodes, max_cache
 
 
@@ -283,7 +327,8 @@ def run_case(case):
     nontrivial = len(queries) > 150 or subtol or cfg["cache_size"] in (0, 1)
     return Result(nontrivial=nontrivial, labels=labels, checks=checks, fail=fail,
                   metrics={"max_nodes_created_per_call": max_nodes, "max_cache_entries": max_cache,
-                           "max_queries": len(queries), "max_search_steps_per_call": _MAX_SEARCH[0]})
+                           "max_queries": len(queries), "max_search_steps_per_call": _MAX_SEARCH[0],
+                           "max_tensors_held_minus_2x_cache_size": _MAX_HELD[0]})
 
 
 class _TrivialSDE(torch.nn.Module):
